@@ -36,6 +36,8 @@ const (
 	oErr
 	oAccErr
 	oPanic
+	oNilBad // the request returns nil, yet the caller's acceptability predicate rejects the outcome
+	//         (e.g. rest/httpc: err == nil && resp.StatusCode < 500)
 )
 
 var entryNames = []string{"Do", "DoCtx", "DoWithAcceptable", "DoWithAcceptableCtx", "DoWithFallback", "DoWithFallbackCtx",
@@ -137,7 +139,7 @@ func (mc *machine) call(entry int, pkgLevel bool, outcome int, dur time.Duration
 		ran++
 		m.adv(dur)
 		switch outcome {
-		case oOK:
+		case oOK, oNilBad:
 			return nil
 		case oErr:
 			return reqErr
@@ -146,7 +148,12 @@ func (mc *machine) call(entry int, pkgLevel bool, outcome int, dur time.Duration
 		}
 		panic(panicVal)
 	}
-	acceptable := func(err error) bool { return err == nil || err == accErr }
+	acceptable := func(err error) bool {
+		if outcome == oNilBad {
+			return false // judged on something other than the error (a response status, say)
+		}
+		return err == nil || err == accErr
+	}
 	var fbErr error
 	if !fbNil {
 		fbErr = errors.New("fallback result")
@@ -239,7 +246,7 @@ func (mc *machine) call(entry int, pkgLevel bool, outcome int, dur time.Duration
 			}
 		}
 	}()
-	mc.logf(" %s(%s,dur=%v%s)", entryNames[entry], [...]string{"ok", "err", "accErr", "panic"}[outcome], dur,
+	mc.logf(" %s(%s,dur=%v%s)", entryNames[entry], [...]string{"ok", "err", "accErr", "panic", "nilButUnacceptable"}[outcome], dur,
 		map[bool]string{true: ",cancelled", false: ""}[cancelled && hasCtx])
 
 	// ---- cancelled context: nothing runs, nothing is recorded, ctx error returned
@@ -260,6 +267,10 @@ func (mc *machine) call(entry int, pkgLevel bool, outcome int, dur time.Duration
 	case oAccErr:
 		if hasAcc {
 			recKind = kSucc
+		}
+	case oNilBad:
+		if !hasAcc {
+			recKind = kSucc // entry points without a predicate judge by the error alone
 		}
 	}
 	if !admitted {
@@ -297,7 +308,7 @@ func (mc *machine) call(entry int, pkgLevel bool, outcome int, dur time.Duration
 		}
 		if !promiseUsed {
 			switch outcome {
-			case oOK:
+			case oOK, oNilBad:
 				if got != nil || pan != nil {
 					t.Fatalf("ok call returned %v panic=%v; history:%s", got, pan, mc.log.String())
 				}
@@ -360,14 +371,14 @@ func TestVerifC01StateMachine(t *testing.T) {
 		t.Repeat(map[string]func(*rapid.T){
 			"call": func(t *rapid.T) {
 				mc.t = t
-				mc.call(rapid.IntRange(0, 9).Draw(t, "entry"), rapid.Bool().Draw(t, "pkgLevel"), rapid.IntRange(0, 3).Draw(t, "outcome"),
+				mc.call(rapid.IntRange(0, 9).Draw(t, "entry"), rapid.Bool().Draw(t, "pkgLevel"), rapid.IntRange(0, 4).Draw(t, "outcome"),
 					time.Duration(rapid.SampledFrom([]int{0, 0, 0, 1, 250, 1200, 3000}).Draw(t, "durMs"))*time.Millisecond,
 					rapid.IntRange(0, 7).Draw(t, "cancelled") == 0, rapid.Bool().Draw(t, "fallbackNil"))
 			},
 			"burst": func(t *rapid.T) {
 				mc.t = t
 				n := rapid.IntRange(5, 400).Draw(t, "n")
-				outcome := rapid.SampledFrom([]int{oOK, oErr, oErr, oErr, oAccErr, oPanic}).Draw(t, "outcome")
+				outcome := rapid.SampledFrom([]int{oOK, oErr, oErr, oErr, oAccErr, oPanic, oNilBad}).Draw(t, "outcome")
 				sp := time.Duration(rapid.SampledFrom([]int{0, 1, 5, 40, 300}).Draw(t, "spacingMs")) * time.Millisecond
 				entry := rapid.IntRange(0, 9).Draw(t, "entry")
 				pkg := rapid.Bool().Draw(t, "pkgLevel")
@@ -427,7 +438,10 @@ func TestVerifC01Trip(t *testing.T) {
 		}
 		spacing := time.Duration(rapid.SampledFrom([]int{1, 2, 5, 10}).Draw(t, "spacingMs")) * time.Millisecond
 		entry := rapid.IntRange(0, 9).Draw(t, "entry")
-		outcome := rapid.SampledFrom([]int{oErr, oPanic}).Draw(t, "failKind")
+		outcome := rapid.SampledFrom([]int{oErr, oPanic, oNilBad}).Draw(t, "failKind")
+		if outcome == oNilBad {
+			entry = rapid.SampledFrom([]int{2, 3, 6, 7, 8, 9}).Draw(t, "entryWithPredicate")
+		}
 		total := int(12*time.Second/spacing) + 1000
 		rejBefore := 0
 		for i := 0; i < total; i++ {
